@@ -486,7 +486,7 @@ async fn c36_contained(ctx: Ctx, publisher_side: bool) {
 }
 
 pub fn c36(args: &Args) -> Vec<Scenario> {
-    let d = if args.thorough() { 6 } else { 5 };
+    let d = if args.thorough() { 7 } else { 5 };
     vec![
         Scenario::new(format!("C36.tree[depth={d}]"), 99, move |ctx| c36_prog(ctx, d)).cfg(|c| c.keep_logs = false),
         Scenario::new("C36.contained-publisher[]", 0, |ctx| c36_contained(ctx, true)),
